@@ -31,8 +31,9 @@ type C09Plan struct {
 	A, B      Cfg
 	StartZero bool      `json:"start_zero"`
 	Ops       []int     `json:"ops"`
-	Planted   []Planted `json:"planted"` // what makes Reconfigure(invalid) invalid (applied to B)
-	Probe     int       `json:"probe"`   // which failing-preflight probe observes debug mode (method / PNA / headers)
+	Planted   []Planted `json:"planted"`         // what makes Reconfigure(invalid) invalid (applied to B)
+	Probe     int       `json:"probe"`           // which failing-preflight probe observes debug mode (method / PNA / headers)
+	Noise     []HV      `json:"noise,omitempty"` // bystander request headers / request shape on every other debug probe
 }
 
 type c09 struct{}
@@ -65,7 +66,7 @@ func (c09) FaultKinds() []string {
 	return []string{"F1_rejected_reconfigure", "op_setdebug_on_passthrough", "op_reconfigure_nil"}
 }
 func (c09) Probes() []string {
-	return []string{"debug_on_observed", "debug_off_observed", "passthrough_observed", "setdebug_true_then_configure", "debug_survives_reconfigure", "twin_debug_pairs_compared", "history_twin_compared", "configuration_showing_nothing_of_debug_mode"}
+	return []string{"debug_on_observed", "debug_off_observed", "passthrough_observed", "setdebug_true_then_configure", "debug_survives_reconfigure", "twin_debug_pairs_compared", "history_twin_compared", "configuration_showing_nothing_of_debug_mode", "debug_probe_with_bystander_headers"}
 }
 
 func hasObservableDebug(c Cfg) bool { _, ok := debugProbe(c); return ok }
@@ -132,6 +133,9 @@ func (c09) Gen(r *R, tier string) any {
 		}
 	}
 	p.Planted = genPlanted(r, r.Range(1, 3))
+	if r.P(0.6) {
+		p.Noise = genNoise(r)
+	}
 	return p
 }
 
@@ -174,6 +178,7 @@ func (c09) Exec(plan any, c *Ctx) *Violation {
 	srv := newServer(m.Wrap)
 	passProbe := preflight("https://probe.test", "PUT", nil, false)
 	sawSet, sawReconf := false, false
+	nObs := 0
 	observe := func(step string) *Violation {
 		// passthrough detection: a preflight reaches the handler only on a passthrough middleware
 		r0 := srv.do(passProbe)
@@ -194,6 +199,12 @@ func (c09) Exec(plan any, c *Ctx) *Violation {
 		if !observable {
 			c.hit("configuration_showing_nothing_of_debug_mode")
 			return nil // as on a passthrough middleware: observed at the next configuration that shows it
+		}
+		nObs++
+		if len(p.Noise) > 0 && nObs%2 == 0 {
+			// what the failing preflight shows is the middleware's debug mode, whatever else the request carries
+			q = q.withNoise(p.Noise)
+			c.hit("debug_probe_with_bystander_headers")
 		}
 		r1 := srv.do(q)
 		var got bool
@@ -431,6 +442,16 @@ func (c09) Shrink(plan any) []any {
 		q := *p
 		q.Ops = append(append([]int{}, p.Ops[:i]...), p.Ops[i+1:]...)
 		out = append(out, &q)
+	}
+	if len(p.Noise) > 0 {
+		q := *p
+		q.Noise = nil
+		out = append(out, &q)
+		for i := range p.Noise {
+			q := *p
+			q.Noise = append(append([]HV{}, p.Noise[:i]...), p.Noise[i+1:]...)
+			out = append(out, &q)
+		}
 	}
 	for i, o := range p.Ops { // prefer simpler operations: B -> A
 		if o%nC09Ops == opReconfB {
